@@ -76,6 +76,10 @@ mod verif_kani {
         kani::cover!(value > (1u64 << 60));
     }
 
+    // MEASURED, out of reach: NumberExpression::from_str on `0x` / `0b` + 3..4 symbolic digits or
+    // underscores (concrete length) does not finish in 300 s (filter_underscore collects into a String,
+    // u64::from_str_radix).  Literal PARSING is therefore not covered; only the value computation is.
+
     //@harness props=C13 kind=mustfail fns=HexNumber::compute_value
     //@ desc="vacuity witness: the false claim `the exponent never matters` must be refuted"
     #[kani::proof]
